@@ -236,6 +236,12 @@ Theorem C16_reopened_logs_linearise ops r l :
 Proof. intros W Hlen L OT. exact (ovalues_linearise ops r l W L Hlen OT). Qed.
 
 
+(* no operation at all - append, merge with any bound, iteration with any options, identity change,
+   publication, re-opening - panics on any replica of any such history *)
+Theorem C16_no_operation_of_any_history_panics ops o :
+  owf ops -> match snd (step (run ops) o) with ResNone RcPanic => False | _ => True end.
+Proof. exact (ostep_never_panics ops o). Qed.
+
 (* the main clause between any two replicas of such a history *)
 Theorem C16_bounded_join_keeps_newest_reopened ops r src l o size lu :
   owf ops -> hist_bound ops < two63 ->
@@ -302,5 +308,6 @@ Print Assumptions C16_nonvacuous.
 Print Assumptions C16_reopened_logs_are_logs.
 Print Assumptions C16_reopened_any_merge_any_bound_never_panics.
 Print Assumptions C16_reopened_logs_linearise.
+Print Assumptions C16_no_operation_of_any_history_panics.
 Print Assumptions C16_bounded_join_keeps_newest_reopened.
 Print Assumptions C16_reopened_nonvacuous.
